@@ -31,7 +31,9 @@ func runFrames(w *uimodel.World, st uimodel.Start, seq string, h int, hookFail b
 		d := uidrv.New(30, h)
 		d.OnFrame = func(f string) {
 			frames++
-			_, hh := d.S.VerifSize()
+			// the height the harness gave the terminal, not the one the state under test
+			// believes it has (everything here is sequential, so there is no doubt which applies)
+			hh := d.Height
 			if each != nil {
 				each(f, hh)
 			}
@@ -54,6 +56,11 @@ func runFrames(w *uimodel.World, st uimodel.Start, seq string, h int, hookFail b
 		d.Keys(epilogue)
 		d.Resize(30, h)
 		d.Keys(epilogue)
+		// width and height change in one step (a corner drag), and back
+		d.Resize(37, h+2)
+		d.Keys("jk")
+		d.Resize(30, h)
+		d.Keys("jk")
 	})
 	return faults, frames, out
 }
